@@ -116,7 +116,13 @@ func TestHistoryPrunerEnum(t *testing.T) {
 			}
 			bad := false
 			for _, pr := range sweep(store, p, true) {
-				report("historypruner-migration:after-crash:"+pr.Kind, fmt.Sprintf("crash after mutation %d of %d, restart: block %d: %s", k, M, pr.Block, pr.What), o, pr.Want, pr.Got)
+				// a crash inside the block-transactions migration shows that migration's own defects
+				key := classify(pr, "after-crash")
+				what := whatFor(key, pr, fmt.Sprintf("crash after durable mutation %d of %d, restart, run to completion", k, M))
+				if strings.HasPrefix(key, "migration:accessor-sweep:") {
+					key = "historypruner-migration:after-crash:" + pr.Kind
+				}
+				report(key, what, o, pr.Want, pr.Got)
 				bad = true
 			}
 			d, _ := faultkv.Dump(store)
